@@ -347,6 +347,41 @@ func runC02(c *fw.Ctx, idx int) fw.Result {
 				}
 			}
 		}
+		if idx%30 == 20 && stdin == nil {
+			// -o left out: the per-query files go to the current directory
+			cwd := filepath.Join(d, "cwd")
+			os.MkdirAll(cwd, 0755)
+			var nargs []string
+			for i := 0; i < len(args); i++ {
+				if args[i] == "-o" && i+1 < len(args) && args[i+1] == "stdout" {
+					i++
+					continue
+				}
+				nargs = append(nargs, args[i])
+			}
+			bn := fw.RunBin(c.Bin, nargs, nil, nil, cwd, 40*time.Second)
+			res.Evals++
+			res.Count("binary_runs_without_output_option", 1)
+			if bn.TimedOut {
+				binHang(&res, bn, "toPairAlign (no -o)", map[string]string{"in.sam": sf.Text, "ref.fasta": refFasta}, nargs)
+			} else {
+				bad := ""
+				if bn.Exit != 0 {
+					bad = fmt.Sprintf("exit %d: %s", bn.Exit, clipStr(string(bn.Stderr), 300))
+				}
+				for _, q := range sf.Queries {
+					fn := strings.ReplaceAll(q.Name, "/", "_") + ".fasta"
+					got, _ := os.ReadFile(filepath.Join(cwd, fn))
+					if bad == "" && string(got) != files[fn] {
+						bad = fn + " in the working directory differs from the entry point's file: " + firstDiff(files[fn], string(got))
+					}
+				}
+				if bad != "" {
+					res.Fail("no-output-option", "toPairAlign without -o (per-query files in the current directory): "+bad,
+						map[string]string{"in.sam": sf.Text, "ref.fasta": refFasta, "stderr.txt": string(bn.Stderr)}, nargs)
+				}
+			}
+		}
 		os.RemoveAll(d)
 		res.Evals++
 		res.Count("binary_stdout_runs", 1)
